@@ -248,7 +248,7 @@ impl BuildCase {
         let mode_in_effect = self.effective_mode();
         let same_class = |b: u8| -> u8 {
             match mode_in_effect {
-                Mode::Numeric => b'0' + (b.wrapping_sub(b'0') + 7) % 10,
+                Mode::Numeric => b'0' + (b.wrapping_sub(b'0') % 10 + 7) % 10,
                 Mode::Alphanumeric => refmodel::tables::ALNUM_SET[(refmodel::tables::alnum_value(b).unwrap_or(0) as usize + 11) % 45],
                 Mode::Byte => b ^ 0x21,
             }
